@@ -815,7 +815,7 @@ fn execute(args: &Opts, input: String, filename: Option<PathBuf>) -> Result<Vec<
 	// * We have a pattern search with at least one field extraction
 	//
 	// then we print the entire buffer
-	let should_print_entire_buffer = (!has_pattern_search && (!editing_inplace || !has_files)) && no_fields;
+	let should_print_entire_buffer = !has_pattern_search && no_fields;
 
 	if should_print_entire_buffer {
 		let big_line = vicut.current_buffer().buffer.clone();
